@@ -51,6 +51,9 @@ func (Engine) Generate(prop, tier string, run int, seed uint64) *kernel.Scenario
 	case "C08":
 		return genC08(r)
 	case "C07":
+		if r.Bool(0.35) {
+			return genC07V(r)
+		}
 		return genC07(r)
 	}
 	return nil
@@ -65,6 +68,9 @@ func (Engine) Execute(t *testing.T, sc *kernel.Scenario, trace bool) *kernel.Res
 	case "C08":
 		return execC08(t, sc, trace)
 	case "C07":
+		if sc.Cfg("trio", 0) == 1 {
+			return execC07V(t, sc, trace)
+		}
 		return execC07(t, sc, trace)
 	}
 	return &kernel.Result{}
@@ -97,6 +103,11 @@ func (Engine) Describe(prop string) kernel.Describe {
 		d.Assumptions = []string{"ledger and event latencies are bounded so that five refutation rounds fit into the shortest challenge period (1 s): the protocol's own assumption",
 			"the adversary deviates only by registering old signed states; its client does not run a watcher",
 			"known findings are matched by history shape (see known_findings.json)"}
+	case "C07":
+		d.Rule = "two-party runs (65%): honest history (payments, sub-channel open/pay under a no-app parent) with crafted steps in which the adversary edits the counterparty client's outgoing ChannelUpdateMsg in flight: ordinary payments, the parent's sub-channel funding update, the parent's sub-channel settlement update. Three-party runs (35%): the honest hub between two adversarial peers; edited VirtualChannelFundingProposalMsg / VirtualChannelSettlementProposalMsg. Edited messages are re-signed with the peer's key and re-serialised (undecodable ones are counted and dropped). Violation: countersigned and not acceptable by the independent predicate. Non-trivial: at least one crafted message was delivered; distinct = scenario digest x interleaving hash."
+		d.FaultKinds = append(append(append(append([]string{"delay/reorder", "yield hooks"}, c07OrdinaryMuts...), c07FundingMuts...), c07SettleMuts...), append(c07VFundMuts, c07VSettleMuts...)...)
+		d.Assumptions = []string{"the honest client's update handler accepts everything, so only library checks protect it",
+			"a stealing ordinary update on a no-app channel is acceptable by the statement (valid successor, sender is actor, locked unchanged): whether to accept it is the user handler's decision"}
 	case "C08":
 		d.Rule = "honest openings (ledger channels with drawn challenge duration up to 2^40 s, 1-3 assets, zero balances, funding agreement, app, aux; sub-channels) with scenario-controlled nonce shares, interleaved with crafted proposals that break exactly one validity condition, sent by a stranger or by the channel counterparty and passed through the real serializer. Oracles: identical parameters/ID/participant order/fully signed version-0 state equal to the proposal on both sides; different nonce shares => different IDs; handler never runs for a mutant, no channel is created from one, no panic, a later honest proposal succeeds. Non-trivial: at least one opening and (a mutant or a second opening)."
 		d.FaultKinds = append([]string{"delay/reorder", "yield hooks"}, c08Mutations...)
